@@ -81,15 +81,15 @@ func (c *valueAwarePostProcessors) PostProcessProperties(properties []*component
 // avoids re-parsing its text form, which alters strings that look like numbers, booleans, quoted
 // or bracketed text and loses precision of large integers.
 func configuredScalar(prop *component_definition.Property) (any, bool) {
-	if len(prop.Configurations) != 1 {
+	//the quote itself is resolved last: quotes nested in its key ("${a.${b}}") come before it
+	configValue, ok := prop.LastConfiguration()
+	if !ok {
 		return nil, false
 	}
-	for _, configValue := range prop.Configurations {
-		switch configValue.(type) {
-		case string, bool, int, int8, int16, int32, int64, uint, uint8, uint16, uint32, uint64, float32, float64:
-			if text, err := strconv2.FormatAny(configValue); err == nil && text == prop.TagVal {
-				return configValue, true
-			}
+	switch configValue.(type) {
+	case string, bool, int, int8, int16, int32, int64, uint, uint8, uint16, uint32, uint64, float32, float64:
+		if text, err := strconv2.FormatAny(configValue); err == nil && text == prop.TagVal {
+			return configValue, true
 		}
 	}
 	return nil, false
